@@ -204,7 +204,7 @@ def run_path(events, returns_node, local, float_check):
             if q['kind'] != 'param' and (q['owned'] or q['may_hold']):
                 return (k, f'path ends while container {c} of this function still holds references')
         for c, q in sorted(cs.items()):
-            if q['kind'] == 'param' and q['released'] != q['freed']:
+            if q['kind'] == 'param' and q['ever_released'] != q['freed']:
                 return (k, f'container {c} of the caller is released without being consumed '
                            '(or freed without being released)')
         for c, q in sorted(cs.items()):
@@ -281,7 +281,7 @@ def run_path(events, returns_node, local, float_check):
                 return (k, f'not an allocation function: {ev[2]}')
             cs[ev[1]] = dict(kind={'alloc': 'array', 'cnew': 'pyobj', 'cparam': 'param'}[t],
                              size=ev[3] if t == 'alloc' else '', owned=[], borrowed=[],
-                             may_hold=False, released=False, freed=False)
+                             may_hold=False, released=False, ever_released=False, freed=False)
         elif t == 'store':
             q, n = cs.get(ev[1]), st.get(ev[2])
             if q is None:
@@ -342,6 +342,7 @@ def run_path(events, returns_node, local, float_check):
             q['owned'] = []
             q['may_hold'] = False
             q['released'] = True
+            q['ever_released'] = True
         elif t == 'free':
             q = cs.get(ev[1])
             if ev[2] not in FREES:
@@ -368,6 +369,10 @@ def run_path(events, returns_node, local, float_check):
             return (k, f'event without a rule: {t}')
     return end(len(events))
 
+
+# (back end, function, exception that ends the path): same list as `knownArrayLeaks` in
+# lean/DD/CWrapReviewed.lean -- memory only, recorded as an observation
+KNOWN_ARRAY_LEAKS = {('cudd', 'BDD._multi_compose', 'ValueError')}
 
 CONT_EVENTS = ('alloc', 'cnew', 'cparam', 'store', 'load', 'passC', 'derefAll', 'free', 'refNonPos',
                'setField')
@@ -626,6 +631,13 @@ def check_C19(ctx):
                 if bad is not None and bad[1] == ARRAY_LEAK:
                     array_leaks.append(dict(backend=tag, method=m['name'], line=m['line'], path=i,
                                             ends=list(evs[-1])))
+                    exc = evs[-1][1] if evs and evs[-1][0] == 'raise' else None
+                    if (tag, m['name'], exc) not in KNOWN_ARRAY_LEAKS:
+                        ctx.violation(
+                            f'{tag} {m["name"]} (line {m["line"]}): {ARRAY_LEAK}',
+                            dict(backend=tag, method=m['name'], line=m['line'],
+                                 path=[list(e) for e in evs], event=bad[0],
+                                 tags=dict(call=f'{tag}.{m["name"]}', symptom='array-not-freed')))
                 if bad is None and any(e[0] == 'refNonPos' for e in evs):
                     rest = [e for e in evs if e[0] != 'refNonPos']
                     leak = run_path(rest, m['returns_node'], local, False)
